@@ -87,9 +87,9 @@ PROPS["C12"] = dict(
 
 PROPS["C05"] = dict(
     title="Every well-formed PDU survives encode then decode unchanged",
-    module="Cfdp.Props.C05",
+    module="Cfdp.Props.C05u",
     namespace="Cfdp.Codec",
-    theorems=["C05_pdu", "C05_len", "C05_header", "C05_id", "C05_tlv", "C05_fsRequest", "C05_fsResponse", "C05_payload", "C05_enum_tables"],
+    theorems=["C05_pdu", "C05_len", "C05_header", "C05_id", "C05_tlv", "C05_fsRequest", "C05_fsResponse", "C05_payload", "C05_enum_tables", "C05_userop", "C05_userop_len", "C05_report"],
     engines=["codec"],
     design="§6 C05",
     technique="Lean 4 round-trip proofs over a byte-level codec model + regenerated enum tables + differential correspondence with PDU::encode/decode",
@@ -97,8 +97,14 @@ PROPS["C05"] = dict(
                 "combination, id widths 1/2/4/8, small and large file-size encodings, CRC on or off, all seven directives, both file-data forms, "
                 "all six metadata TLVs, filestore requests/responses — decode(encode p) = p (C05_pdu) and the number of bytes produced equals "
                 "encoded_len (+2 with CRC) for every value, well-formed or not (C05_len). Enum/code tables are regenerated from the Rust source on "
-                "every run (gen/enums.py) and re-proved injective. The model is tied to the code by decoding the same byte strings in both and "
-                "comparing a canonical rendering of the value, encoded_len and the re-encoding (50k strings quick)."),
+                "every run (gen/enums.py) and re-proved injective. The reserved CFDP messages of user_ops.rs (Model/Codec/UserOps.lean: all 26 kinds - proxy put / message / "
+                "filestore request / fault-handler override / transmission mode / flow label / segmentation control / put cancel and responses, directory listing, remote status "
+                "report, remote suspend and resume, originating transaction id, store-and-forward overlay request, report and carried items) and the status report of daemon.rs "
+                "round-trip the same way within their limits (C05_userop, C05_report; Props/C05u.lean) and announce their length exactly (C05_userop_len). "
+                "The model is tied to the code by decoding the same byte strings in both and "
+                "comparing a canonical rendering of the value, encoded_len and the re-encoding (50k strings quick); user operations and reports: every generated value, a "
+                "truncation and a one-octet mutation of it, hand-built store-and-forward messages and random bytes behind every message type code are decoded by both and compared "
+                "by outcome, re-encoding and encoded_len (ops codec userop / codec report, about 7000 quick)."),
     level_note=("Trusted: Lean kernel; model<->code tie is differential; integers as Nat with range side conditions; String::from_utf8 modelled by an "
                 "executable UTF-8 validator; u16 arithmetic of encoded_len is modelled in Nat (no overflow below 65536). Reserved user operations "
                 "(user_ops.rs) and status reports (daemon.rs Report) are covered by the implementation-level round-trip oracle only (not yet in the Lean model)."),
@@ -106,21 +112,20 @@ PROPS["C05"] = dict(
           "(boundary strings 0/1/254/255, sizes 0/1/max-1/max), all 128 discrete header bit combinations, then the malformed stream of C06. "
           "Non-trivial = the implementation accepted the bytes (answer starts with ok)."),
     assumptions=["values handed to encode respect the wire format's limits (Pdu.WF); outside them encode truncates silently (`as u8`) and the round trip is not claimed"],
-    unproved=["round trip of the 27 reserved user operations (user_ops.rs) and of status reports (Report): oracle only",
-              ],
+    unproved=[],
 )
 
 PROPS["C06"] = dict(
     title="Decoding arbitrary bytes never panics and what it accepts is canonical",
-    module="Cfdp.Props.C06",
+    module="Cfdp.Props.C06u",
     namespace="Cfdp.Codec",
-    theorems=["C06_total", "C06_alloc"],
+    theorems=["C06_total", "C06_alloc", "C06_userop_total", "C06_report_total"],
     engines=["codec"],
     design="§6 C06",
     technique="Lean 4 totality proof over the codec model (panic outcome unreachable) + differential correspondence on a malformed byte stream with allocation counting",
     level_text=("Kernel-checked: for every byte string the model decoder returns a PDU or an error and never its panic outcome (C06_total; the panic "
                 "outcome marks RecordContinuationState::from_u8(..).unwrap(), the fixed u16-2 / u8+1 sites are checked arithmetic now); the only "
-                "wire-controlled allocation is below 64 KiB (C06_alloc). 'Never loops' is Lean's termination check on the model decoders (fuel = input "
+                "wire-controlled allocation is below 64 KiB (C06_alloc); the decoders of the reserved CFDP messages (user_ops.rs) and of status reports never reach the panic outcome either (C06_userop_total, C06_report_total; Props/C06u.lean). 'Never loops' is Lean's termination check on the model decoders (fuel = input "
                 "length, each iteration consumes a byte). Tie to the code: 50k (thorough 2M) byte strings — every truncation and 9 single-byte mutations per "
                 "position of valid encodings, all prefixes <=4 over a 12-byte alphabet, forced length/flag fields, random tails — decoded by both; outcome class "
                 "(value rendering | error variant | panic) compared; a counting global allocator bounds the largest single allocation (256 KiB)."),
@@ -129,8 +134,7 @@ PROPS["C06"] = dict(
                 "accepted string but is not yet a theorem."),
     rule=("codec engine malformed stream (see level_text). Non-trivial = accepted by the implementation or rejected with a variant other than ReadError."),
     assumptions=[],
-    unproved=["C06_canon: decode bs = ok p -> WF (relen p) and decode (encode (relen p)) = ok (relen p)  (oracle only)",
-              "user operations / Report decoders (oracle only)"],
+    unproved=["C06_canon: decode bs = ok p -> decode (encode (relen p)) = ok (relen p) for every byte string is an oracle of the codec engine (canonical, userop_canonical), not a theorem: values the decoders accept need not be well-formed in C05's sense (e.g. a fault location beside NoError), so C05_pdu does not apply to them"],
 )
 
 PROPS["C16"] = dict(
